@@ -257,6 +257,8 @@ class RSite:
             r = o['robots']
             if r['kind'] == 'ok':
                 pages['/robots.txt'] = Page(200, r['text'].encode('latin-1'), ctype='text/plain')
+                if r.get('split'):
+                    pages['/robots.txt'].split = r['split']      # the body arrives after the header (two reads at the client)
             elif r['kind'] == 'missing':
                 pages['/robots.txt'] = Page(404, b'no', ctype='text/plain')
             elif r['kind'] == 'forbidden':
@@ -377,6 +379,10 @@ def gen_rsite(rng, big=None):
         o['robots']['max_redirect'] = m
         o['robots']['tries'] = t
         o['robots']['how'] = rng.choice(['close', 'garbage'])
+        o['robots']['split'] = rng.choice([None, 0.2, 0.5, 1.5])
+    tg = rng.choice([None, None, None, ['--follow-tags', 'a,area,img'], ['--ignore-tags', 'meta,link'], ['--follow-tags', 'a,area,img,link,script']])
+    for o in s.origins.values():
+        o['robots']['tags'] = tg
     return s
 
 
@@ -465,6 +471,9 @@ def run_one(args):
         m = next(iter(site.origins.values()))['robots'].get('max_redirect')
         if m:
             extra += ['--max-redirect', str(m)]
+        tags = next(iter(site.origins.values()))['robots'].get('tags')
+        if tags:
+            extra += tags       # --follow-tags / --ignore-tags: which elements give links; not whether nofollow is honoured
         starts = ['%s/' % origin_base(h) for h in site.origins]
         if any(h.endswith('#443') for h in site.origins):
             extra += ['--no-check-certificate']      # https runs over the in-memory transport without TLS
@@ -643,7 +652,7 @@ def gen_nf_doc(rng):
     return els, doc.encode()
 
 
-def real_scrape(doc, robots, refresh=None):
+def real_scrape(doc, robots, refresh=None, tags=None):
     from wpull.document.htmlparse.html5lib_ import HTMLParser
     from wpull.scraper.html import HTMLScraper, ElementWalker
     from wpull.protocol.http.request import Request, Response
@@ -658,7 +667,7 @@ def real_scrape(doc, robots, refresh=None):
     ElementWalker.robots_cannot_follow = staticmethod(logged) if not isinstance(ElementWalker.__dict__['robots_cannot_follow'], classmethod) \
         else classmethod(lambda cls, element: logged(element))
     try:
-        scraper = HTMLScraper(HTMLParser(), ElementWalker(), robots=robots)
+        scraper = HTMLScraper(HTMLParser(), ElementWalker(), robots=robots, **(tags or {}))
         request = Request('http://a.test/page.html')
         response = Response(200, 'OK')
         response.fields['Content-Type'] = 'text/html'
@@ -719,18 +728,19 @@ def stream_nofollow(ctx, n):
         els, doc = gen_nf_doc(rng)
         robots = rng.random() < 0.8
         refresh = '3; url=/refreshed' if rng.random() < 0.15 else None
-        every, _ = real_scrape(doc, False, refresh)               # what the walker yields (robots handling off)
-        kept, flags = real_scrape(doc, robots, refresh)
+        tags = rng.choice([None, None, {'followed_tags': ['a', 'area', 'img']}, {'ignored_tags': ['meta', 'link']}, {'ignored_tags': ['meta']}])
+        every, _ = real_scrape(doc, False, refresh, tags)               # what the walker yields (robots handling off)
+        kept, flags = real_scrape(doc, robots, refresh, tags)
         ids = {u: i for i, u in enumerate(sorted({c[0] for c in every}))}
         seen = [f for f in flags]                                   # one entry per element examined while still looking
         elems = ['%s:_' % ('m' if f else 'e') for f in seen] + ['e:' + ('|'.join('%d,%s,%s' % (ids[u], 'T' if i else 'F', 'T' if l else 'F')
                                                                                   for u, i, l in every) or '_')]
         reqs.append('robots nofollow %s %s' % ('T' if robots else 'F', ';'.join(elems)))
-        meta.append((els, doc, robots, refresh, every, kept, ids))
+        meta.append((els, doc, robots, refresh, every, kept, ids, tags))
     replies = ctx.model.ask(reqs)
-    for (els, doc, robots, refresh, every, kept, ids), rep in zip(meta, replies):
+    for (els, doc, robots, refresh, every, kept, ids, tags), rep in zip(meta, replies):
         declared = any(e[0] == 'meta' and e[1].lower() == 'robots' and e[2] == 'content' and 'nofollow' in e[3].lower() for e in els)
-        case = {'stream': 'nofollow', 'doc': doc, 'robots': robots, 'refresh': refresh}
+        case = {'stream': 'nofollow', 'doc': doc, 'robots': robots, 'refresh': refresh, 'tags': tags}
         ctx.case(('nofollow', doc, robots, refresh), nontrivial=bool(every),
                  tags=['nofollow:%s' % ('declared' if declared else 'not-declared'), 'nofollow:robots=%s' % robots])
         real = '|'.join('%d,%s,%s' % (ids[u], 'T' if i else 'F', 'T' if l else 'F') for u, i, l in kept) or '~'
@@ -800,7 +810,7 @@ def run(ctx):
 
 
 def replay_nofollow(ctx, case):
-    kept, _ = real_scrape(case['doc'], case['robots'], case.get('refresh'))
+    kept, _ = real_scrape(case['doc'], case['robots'], case.get('refresh'), case.get('tags'))
     ctx.case(('nofollow', case['doc']))
     doc = case['doc'].decode('latin-1').lower()
     declared = bool(re.search(r'<meta name="robots" content="[^"]*nofollow', doc))
